@@ -8,7 +8,7 @@ PROPS = {
     'C06': A(level='model_checking',
              harnesses=[A(src='harness/c06_rbtree.cpp', san='asan')],
              budget=A(quick=150, thorough=2400),
-             bounds=A(quick='rbtree: pool N=5, all 3^5 key assignments, + N=7 distinct keys (asc/desc/mixed); rbtree_order N=7 with insert(before, x) for every before (1.27 million states); insert/remove histories of any length (fixpoint)',
+             bounds=A(quick='rbtree: pool N=5, all 3^5 key assignments, + N=7 distinct keys (asc/desc/mixed); rbtree_order N=7 with insert(before, x) for every before (1.27 million states); a comparator object with state (descending); insert/remove histories of any length (fixpoint)',
                       thorough='rbtree: pool N=6, all 3^6 key assignments, + N=8 distinct; rbtree_order N=8; fixpoint'),
              assumptions=TRUST),
 }
@@ -18,19 +18,19 @@ NOT_YET = {}
 PROPS['C07'] = A(level='model_checking',
     harnesses=[A(src='harness/c07_interval.cpp', san='asan')],
     budget=A(quick=150, thorough=1500),
-    bounds=A(quick='configs (endpoint universe {0..U}, copies c of every interval, <=M stored, f=1 removed node object re-created / f=0 re-used stale): U2c2M5f1 U3c1M6f1 U4c1M4f1 U1c3M6f1 U2c1M5f0 U1c2M4f0; insert/remove histories of any length (fixpoint); every query -1<=lb<=ub<=U+1 and every 1-arg query in every distinct state',
-             thorough='U2c2M6f1 U3c1M7f1 U3c2M5f1 U4c1M6f1 U5c1M4f1 U1c3M7f1 U2c1M6f0 U1c3M5f0 U1c2M4f0 U3c1M3f0; fixpoint; all queries in every distinct state'),
+    bounds=A(quick='configs (endpoint universe {0..U}, copies c of every interval, <=M stored, f=1 removed node object re-created / f=0 re-used stale): U2c2M5f1 U3c1M6f1 U4c1M4f1 U1c3M6f1 U2c1M5f0 U1c2M4f0; insert/remove histories of any length (fixpoint); every query -1<=lb<=ub<=U+1 and every 1-arg query in every distinct state; the same with an endpoint type whose move empties its source (U3c1M4)',
+             thorough='U2c2M6f1 U3c1M7f1 U3c2M5f1 U4c1M6f1 U5c1M4f1 U1c3M7f1 U2c1M6f0 U1c3M5f0 U1c2M4f0 U3c1M2f0; movable endpoint U3c1M5; fixpoint; all queries in every distinct state'),
     assumptions=TRUST)
 PROPS['C08'] = A(level='model_checking',
     harnesses=[A(src='harness/c08_pairing.cpp', san='asan')],
     budget=A(quick=150, thorough=1500),
-    bounds=A(quick='N=5 nodes, every priority multiset over {0,1,2}; push/pop/remove histories of any length (fixpoint)',
-             thorough='N=7 nodes, every priority multiset over {0,1,2}, plus N=8 for three balanced multisets; fixpoint'),
+    bounds=A(quick='N=6 nodes, every priority multiset over {0,1,2}; push/pop/remove histories of any length (fixpoint); pop/remove of a node with 10^3, 2*10^4 and 10^5 children on a 256 KiB stack',
+             thorough='N=7 nodes, every priority multiset over {0,1,2}, plus N=8 for three balanced multisets; fixpoint; up to 4*10^5 children'),
     assumptions=TRUST)
 
 SEQ_H = [A(src='harness/c13_seq.cpp', san='asan')]
 PROPS['C13'] = A(level='model_checking', harnesses=SEQ_H, budget=A(quick=150, thorough=1500),
-    bounds=A(quick='two slots per container type; vector<int|Tracked> depth 5 sizes<=7; small_vector<.,2|4> depth 5; dyn_array depth 4 sizes 0..3; stack depth 10; list depth 9; intrusive_list fixpoint over 5 nodes/2 lists',
+    bounds=A(quick='two slots per container type; vector<int|Tracked> depth 5 sizes<=7; small_vector<.,2|4> depth 5; dyn_array depth 4 sizes 0..3; stack depth 10; list depth 9; intrusive_list fixpoint over 5 nodes/2 lists; vector == / != for every pair of sequences of length <=2 over double, float (incl. +0/-0/NaN), a key with coarser equality and a padded struct',
              thorough='vector depth 7 sizes<=15; small_vector depth 6-7 sizes<=11; dyn_array depth 5; stack depth 16; list depth 14; intrusive_list fixpoint over 6 nodes'),
     assumptions=TRUST)
 PROPS['C13']['harnesses'] = SEQ_H + [A(src='harness/c13_ilist.cpp', san='asan')]
@@ -43,7 +43,7 @@ PROPS['C14'] = A(level='model_checking', harnesses=HM_H, budget=A(quick=150, tho
 
 HOLD_H = [A(src='harness/c17_holders.cpp', san='asan')]
 PROPS['C17'] = A(level='model_checking', harnesses=HOLD_H, budget=A(quick=150, thorough=900),
-    bounds=A(quick='two slots each of optional<int|Tracked|MoveOnly|CopyOnly>, expected<Err,Tracked|int>, variant<Tracked,TrackedB,int>, manual_box<Tracked>; every constructor/assignment/emplace/unwrap/map/apply in every (destination,source) state combination, histories of any length (fixpoint); tuple shapes vs std::tuple',
+    bounds=A(quick='two slots each of optional<int|Tracked|MoveOnly|CopyOnly>, expected<Err,Tracked|int>, variant<Tracked,TrackedB,int>, manual_box<Tracked>; every constructor/assignment/emplace/unwrap/map/apply in every (destination,source) state combination, histories of any length (fixpoint); tuple shapes vs std::tuple; constructor selection of emplace/initialize for 8 argument shapes; expected<E,void>, FRG_TRY, eternal; value-initialisation of scalar/aggregate payloads on re-initialisation',
              thorough='same (the spaces are closed completely already)'),
     assumptions=TRUST)
 
@@ -122,7 +122,7 @@ PROPS['C10'] = A(level='model_checking', engine='sched', harnesses=SCHED('harnes
     technique='stateless model checking: exhaustive preemption-bounded enumeration of schedules at atomic-access granularity on the real rcu_radixtree, linearisation oracle on the recorded call/return history, vector-clock happens-before oracle, ThreadSanitizer over the same schedules',
     assumptions=TRUST + ['interleaving semantics; ordering defects are detected as missing happens-before edges (vector clocks, TSan)'])
 
-PROPS['C11'] = A(level='model_checking', engine='sched', harnesses=[A(src='harness/c11_qs_seq.cpp', san='asan')] + SCHED('harness/c11_qs_mt.cpp'), budget=A(quick=170, thorough=1700),
+PROPS['C11'] = A(level='model_checking', engine='sched', harnesses=[A(src='harness/c11_qs_seq.cpp', san='asan', flags=['-fno-access-control'])] + SCHED('harness/c11_qs_mt.cpp'), budget=A(quick=170, thorough=1700),
     bounds=A(quick='(A) whole-operation BFS: 1-3 agents, up to 3 barriers per agent, every history of online/offline/quiescent_state/await_barrier/run to depth 24/15/14/13/12 (1 agent / 2 agents x 2 nodes / 2x3 / 3x1 / 3x2), coverage-set safety oracle, callback poisons its node, bounded liveness (5 fair rounds) from every state; (B) threads: 8 scripts (registrar vs worker, quiescent_barrier vs worker, late join/early leave, two registrars, deferred period restarted, worker stays online for callback / for barrier, two concurrent await_barrier calls with an older barrier pending [<=3 preemptions]), every atomic access and mutex operation a scheduling point, all schedules with <=2 preemptions, interval-semantics safety oracle, vector-clock happens-before oracle, termination; same schedules under ThreadSanitizer',
              thorough='(A) depths 28/17/16/15/14; (B) <=3 preemptions, three agents, two barriers of one agent, barrier vs barrier'),
     technique='explicit-state BFS over operation histories plus stateless preemption-bounded schedule enumeration of the real qs.hpp under a serialising scheduler with vector-clock happens-before and ThreadSanitizer oracles',
